@@ -1,13 +1,13 @@
 package props
 
 import (
-	"io"
 	"bufio"
 	"bytes"
 	"context"
 	"encoding/binary"
 	"encoding/xml"
 	"fmt"
+	"io"
 	"os"
 	"os/exec"
 	"path/filepath"
